@@ -84,6 +84,11 @@ static int loop_start(m_ctx_t *c, int max_events) {
 }
 
 static uint8_t loop_stop(m_ctx_t *c) {
+    /*
+     * Keep ctx alive until we are done: from now on ctx is IDLE, thus a callback run by the flush
+     * that deregisters the last module also releases a non-persistent ctx.
+     */
+    m_mem_ref(c);
     c->state = M_CTX_IDLE;
     
     /* Publish loop stopped system message */
@@ -126,6 +131,7 @@ static uint8_t loop_stop(m_ctx_t *c) {
     if (m_map_len(c->modules) == 0 && !(c->flags & M_CTX_PERSIST)) {
         m_ctx_deregister();
     }
+    m_mem_unref(c);
     return ret;
 }
 
